@@ -688,19 +688,17 @@ def execute(sc):
                         break
                 if _cwd_independent(sc, mat):
                     # nothing here needs the working directory (absolute source names, every include found next to the including
-                    # file): the build must not depend on it - not even on its existence
+                    # file). With the directory removed (getcwd fails) this is an environment fault like any other: the build may fail
+                    # - an implementation may list its lookup directories eagerly -, but if it succeeds the config is the same
                     ob6 = _run(mat, fs_faults=[{'kind': 'cwd_gone'}])
                     st['runs'] += 1
                     count(probes, 'working_directory_removed')
                     for k_, n_ in ob6['fired'].items():
                         count(st['faults'], k_, n_)
-                    if ob6['status'] != 'ok':
-                        res['violations'].append(core.violation('route.outcome', f'{label}: with the working directory removed (getcwd fails) the build fails at stage {ob6.get("stage")} although every file is named absolutely or '
-                                                                f'found next to the including file: {ob6["exc"]["type"]}: {ob6["exc"]["msg"][:400]}', ref='ok', stage=ob6.get('stage')))
-                        break
-                    if ob6['cfg'] != ref['cfg']:
+                    count(st['outcomes'], 'cwd_gone:' + ob6['status'])
+                    if ob6['status'] == 'ok' and ob6['cfg'] != ref['cfg']:
                         d = _first_diff(ob6['cfg'], ref['cfg'])
-                        res['violations'].append(core.violation('route.config', f'{label}: with the working directory removed the config differs at {d[0]}: {d[1]!r} vs {d[2]!r}', kinds='cwd_gone'))
+                        res['violations'].append(core.violation('fault.wrong_data', f'{label}: with the working directory removed the build succeeds with a different config at {d[0]}: {d[1]!r} vs {d[2]!r}', kinds='cwd_gone'))
                         break
                 if all('path' in c and 'filename' not in c for c in mat['calls']) and pi == 0 and not any(h == 'custom' for d in plan for h in d['file_dirs']):
                     ob2 = _run(mat, entry='cmdline')
